@@ -237,12 +237,21 @@ def _windows(exons, thorough):
             yield a, b
 
 
-LAYOUTS = [((4, 13),), ((5, 9),), ((3, 10), (14, 21)), ((3, 8), (8, 15)), ((6, 11), (13, 17), (20, 28))]
+LAYOUTS = [((4, 13),), ((5, 9),), ((3, 10), (14, 21)), ((3, 8), (8, 15)), ((6, 11), (13, 17), (20, 28)),
+           ((2, 6), (9, 13), (16, 21), (24, 30))]
 
 
 def rk_cds(ctx):
     specs = []
     lays = LAYOUTS if ctx.thorough else LAYOUTS[:4]
+    if not ctx.thorough:
+        # three- and four-exon CDSs (two or more whole exons can lie 5' of the chunk): a thinned set of windows
+        for lay in LAYOUTS[4:]:
+            for sn in ("PLUS", "MINUS"):
+                for start in (0, 1, 2):
+                    for j, (cs, ce) in enumerate(_windows(lay, False)):
+                        if (j + start) % 4 == 0:
+                            specs.append((lay, sn, start, cs, ce))
     for lay in lays:
         for sn in ("PLUS", "MINUS"):
             for start in (0, 1, 2):
@@ -323,14 +332,57 @@ def _guid_case(repo, it, S, spec):
     return 1, out
 
 
+def _gene_twin_case(repo, it, S, spec):
+    """gene-level answers of a chunk-built gene = those of its chromosome-built twin: primary transcript, CDS sizes, dictionary"""
+    cs, ce, sn = spec
+    from ..genekernel import mk_gene
+    out = []
+    F = it.enum("CDSFrame")
+    nm = {0: "ZERO", 1: "ONE", 2: "TWO"}
+
+    def build(p):
+        txs = []
+        for tid, exons, cds in (("long", [(6, 12), (15, 30)], [(6, 12), (15, 30)]), ("short", [(7, 20)], [(7, 20)]), ("nc", [(5, 31)], None)):
+            kw = dict(transcript_id=tid, parent_or_seq_chunk_parent=p)
+            if cds:
+                fr = consistent_frames(cds, sn, 0)
+                txs.append(mk_transcript(it, exons, S[sn], cds=cds, frames=[F[nm[x]] for x in fr], **kw))
+            else:
+                txs.append(mk_transcript(it, exons, S[sn], **kw))
+        return mk_gene(it, txs, gene_id="g", parent_or_seq_chunk_parent=p), txs
+    q = "gene.gene:GeneInterval.__init__"
+    try:
+        (gw, tw), (gp, tp) = build(chrom_parent(it, GENOME, alphabet="NT_EXTENDED")), build(chunk_parent(it, GENOME, cs, ce, alphabet="NT_EXTENDED"))
+    except Raised as ex:
+        return 1, [("gene twin construct", f"gene on chunk [{cs},{ce}) {sn}: {ex.exc_name}", q)]
+    desc = f"gene (isoforms long / short / non-coding) {sn} on chunk [{cs},{ce})"
+    pw, pp = gw.fields["primary_transcript"].fields["transcript_id"], gp.fields["primary_transcript"].fields["transcript_id"]
+    if pw != pp:
+        out.append(("primary transcript of the chunk twin", f"{desc}: primary transcript is {pp!r}; the chromosome-built twin has {pw!r}",
+                    "gene.interval:AbstractFeatureIntervalCollection._find_primary_feature"))
+    fcs = repo.fn("gene.transcript:TranscriptInterval.cds_size")
+    for a, b in zip(tw, tp):
+        if a.fields.get("cds") is None:
+            continue
+        k1, v1 = run(it, fcs, [], {}, a)
+        k2, v2 = run(it, fcs, [], {}, b)
+        if (k1, v1) != (k2, v2):
+            out.append(("cds_size of the chunk twin", f"{desc}: transcript {a.fields['transcript_id']} cds_size {k2}:{v2} on the chunk, {k1}:{v1} on the "
+                        f"chromosome (documented: does not shrink)", fcs.qual))
+    return 1, out
+
+
 def rg_guids(ctx):
     kinds = ("TranscriptInterval", "FeatureInterval", "CDSInterval", "GeneInterval", "FeatureIntervalCollection",
              "VariantIntervalCollection", "AnnotationCollection")
     specs = [(k, w) for k in kinds for w in ((2, 40), (5, 30), (10, 18))]
     results = pmap(_runner(ctx.repo, _guid_case), specs, min_items=4)
+    results += pmap(_runner(ctx.repo, _gene_twin_case), [(cs, ce, sn) for sn in ("PLUS", "MINUS") for cs, ce in ((2, 18), (16, 40), (8, 26), (2, 40))], min_items=4)
     mod = {"TranscriptInterval": "gene.transcript", "FeatureInterval": "gene.feature", "CDSInterval": "gene.cds", "GeneInterval": "gene.gene",
            "FeatureIntervalCollection": "gene.feature", "VariantIntervalCollection": "gene.variants", "AnnotationCollection": "gene.collections"}
-    _report(ctx, "C07.RG", results, [(f"{mod[k]}:{k}.__init__", "chunk-built twin has the chromosome-built twin's identifier") for k in kinds])
+    _report(ctx, "C07.RG", results, [(f"{mod[k]}:{k}.__init__", "chunk-built twin has the chromosome-built twin's identifier") for k in kinds]
+            + [("gene.interval:AbstractFeatureIntervalCollection._find_primary_feature", "chunk-built gene picks the chromosome-built gene's primary transcript"),
+               ("gene.transcript:TranscriptInterval.cds_size", "chromosome-level size on a chunk")])
 
 
 def r1_digest_sources(ctx):
